@@ -264,6 +264,23 @@ def g_member(rng, request):
             return d
 
 
+class GenProduceError(Exception):
+    """cpppo could not produce a message the generator needed as a payload: the message itself becomes the case"""
+
+    def __init__(self, obj, inner):
+        Exception.__init__(self, "produce failed")
+        self.obj, self.inner = obj, inner
+
+
+def produce_or_raise(obj_name, o, inner):
+    import copy
+    keep = copy.deepcopy(inner)
+    try:
+        return bytearray(o.produce(inner))
+    except Exception:
+        raise GenProduceError(obj_name, keep)
+
+
 def g_usend(rng):
     k = rng.random()
     us = dd()
@@ -276,7 +293,7 @@ def g_usend(rng):
         env = Env.get()
         o = env.router if _obj == "router" else env.cm
         us.request = dd()
-        us.request.input = bytearray(o.produce(inner))
+        us.request.input = produce_or_raise(_obj, o, inner)
         if rng.random() < 0.2:
             us.request.input = bytearray(g_int(rng, 8) for _ in range(rng.choice([1, 2, 3, 7])))
         us.route_path = g_path(rng, n=rng.choice([0, 1, 1, 2]), kinds=("port",))
@@ -290,14 +307,20 @@ def g_usend(rng):
         # one-byte element (7 bytes) - must come through untouched
         while True:
             if rng.random() < 0.3:
-                inner = dd({"service": 0xd2, "status": rng.choice([0, 0, 6]), "read_frag": dd(
-                    {"type": rng.choice([0xc1, 0xc2, 0xc6, 0xc3]), "data": [rng.randrange(2)] * rng.choice([1, 1, 2])})})
+                if rng.random() < 0.6:
+                    inner = dd({"service": 0xd2, "status": rng.choice([0, 0, 6]), "read_frag": dd(
+                        {"type": rng.choice([0xc1, 0xc2, 0xc6, 0xc3]), "data": [rng.randrange(2)] * rng.choice([1, 1, 2])})})
+                else:
+                    # a bare failure reply: general status at and around 0x10, with or without extended status
+                    inner = dd({"service": 0xd2, "status": rng.choice([0x10, 0x10, 0x11, 0x0f, 0x1f, 0xff]), "read_frag": True})
+                    if rng.random() < 0.3:
+                        inner.status_ext = {"size": 1, "data": [g_int(rng, 16)]}
                 _obj = "router"
             else:
                 _obj, inner = g_service(rng)
             env = Env.get()
             o = env.router if _obj == "router" else env.cm
-            raw = bytearray(o.produce(inner))
+            raw = produce_or_raise(_obj, o, inner)
             if raw[0] == 0x52:
                 continue
             if raw[0] == 0xd2 and len(raw) >= 4 and len(raw) <= 6 and raw[2] < 0x10 and raw[3] == 0:
@@ -326,7 +349,7 @@ def g_item(rng):
         o = env.router if _obj == "router" else env.cm
         it.connection_data = dd({"sequence": g_int(rng, 16)})
         it.connection_data.request = dd()
-        it.connection_data.request.input = bytearray(o.produce(inner))
+        it.connection_data.request.input = produce_or_raise(_obj, o, inner)
     elif k == "raw":
         it.type_id = rng.choice([0x8000, 0x8002, 0x91, 0x55])
         if rng.random() < 0.7:
@@ -500,7 +523,10 @@ class C01(Suite):
             obj, d = g_service(rng)
             yield {"kind": "svc", "obj": obj, "msg": plain(d)}
         for _ in range(n // 2):
-            yield {"kind": "msg", "obj": "enip", "msg": plain(g_message(rng))}
+            try:
+                yield {"kind": "msg", "obj": "enip", "msg": plain(g_message(rng))}
+            except GenProduceError as exc:
+                yield {"kind": "svc", "obj": exc.obj, "msg": plain(exc.inner)}
 
     # the case carries the generated dotdict as plain JSON; rebuild dotdicts (lists of dotdicts) on use
     @staticmethod
@@ -534,7 +560,7 @@ class C01(Suite):
                 obj, b = self.produce(c)
             except Exception as exc:
                 c["bytes"] = ""
-                return "produce-failed:" + type(exc).__name__
+                return "produce-failed: cpppo cannot produce this message: %s: %s" % (type(exc).__name__, str(exc)[:80])
             c["bytes"] = b.hex()
         env = Env.get()
         b = bytes.fromhex(c["bytes"])
@@ -551,7 +577,33 @@ class C01(Suite):
         except Exception as exc:
             again = b"produce-of-parse-failed"
         c["reproduced"] = again.hex()
+        c["edit"] = self.edit_and_reproduce(obj, b)
         return fields_line(fields) + "|" + hx(b)
+
+    EDITABLE = {"elements": 16, "offset": 32, "connection_serial": 16, "O_vendor": 16, "O_serial": 32, "priority_time_tick": 8,
+                "timeout_ticks": 8, "RPI": 32, "API": 32}
+
+    def edit_and_reproduce(self, obj, b):
+        """parse the bytes, change one plain integer field of the parsed message (of a bundled request, when there is
+        one), produce it and parse that again: -> None, or [key, new value, value parsed back] """
+        try:
+            parsed = parse_with(obj, b)
+            keys = [k for k, v in parsed.items() if k.rsplit(".", 1)[-1] in self.EDITABLE and isinstance(v, int)
+                    and not isinstance(v, bool)]
+            if not keys:
+                return None
+            inner = [k for k in keys if k.startswith("multiple.request[")]
+            key = sorted(inner or keys)[len(b) % len(inner or keys)]
+            width = self.EDITABLE[key.rsplit(".", 1)[-1]]
+            new = (parsed[key] + 1) % (1 << width)
+            if key.endswith(".elements") and new == 0:
+                new = 1
+            parsed[key] = new
+            again = bytes(obj.produce(parsed))
+            back = parse_with(obj, again)
+            return [key, new, back.get(key)]
+        except Exception as exc:
+            return ["?", 0, "%s: %s" % (type(exc).__name__, str(exc)[:60])]
 
     def impl_msg(self, c, b):
         env = Env.get()
@@ -620,6 +672,10 @@ class C01(Suite):
                 continue
             if got.get(k) != v:
                 return f"field {k}: encoded {v!r}, parsed back {got.get(k)!r}"
+        # 1b. a parsed message whose field is then changed is produced from its fields, not from bytes kept from the parse
+        e = c.get("edit")
+        if e and e[2] != e[1]:
+            return f"after parsing, setting {e[0]} = {e[1]} and producing, the message parses back with {e[0]} = {e[2]!r}"
         # 2. producing the parsed message regenerates exactly the original bytes
         svc = int(got.get("service", "0"))
         if svc != 0x83 and c.get("reproduced") != c["bytes"]:
